@@ -200,41 +200,86 @@ def check_non_measured(ctx):
     l = loops[0]
     t = norm(l.target)
     cfg = cfg_of(f.node)
-    br = [s for s in l.body if isinstance(s, ast.If) and norm(s.test) == f"{t}.operator.is_constant"]
-    if len(br) != 1:
-        ctx.undecided(R3, f.key + ":constant-test", "cannot find the `task.operator.is_constant` branch", f)
-        return
-    const_assign = [s for s in br[0].body if isinstance(s, (ast.Assign, ast.AnnAssign))]
-    ok = False
-    detail = "no value assigned on the constant branch"
-    if len(const_assign) == 1:
-        v = const_assign[0].value
-        txt = norm(v)
-        agg_sum = isinstance(v, ast.Call) and dotted(v.func) in ("sum", "np.sum", "math.fsum") and v.args and isinstance(v.args[0], (ast.GeneratorExp, ast.ListComp)) and norm(v.args[0].generators[0].iter) == f"{t}.operator.terms" and norm(v.args[0].elt) == f"{norm(v.args[0].generators[0].target)}.coefficient" and not v.args[0].generators[0].ifs
-        ok = agg_sum or txt == f"{t}.operator.constant_term"
-        fixed = [n for n in ast.walk(v) if isinstance(n, ast.Subscript) and isinstance(n.slice, ast.Constant)]
-        detail = f"a constant operator is valued as {short(v)}" + (": a fixed subscript takes one term only (wrong for several constant terms, IndexError for the empty sum)" if fixed else ": it must aggregate the coefficients of all its terms")
-    ctx.check(ok, R3, f.key + ":constant", "constant operator -> sum of all its (constant) terms' coefficients", detail, f)
-    inner = [s for s in br[0].orelse if isinstance(s, ast.If)]
-    ok_raise = ok_zero = False
-    if len(inner) == 1:
-        tt = inner[0].test
-        from .c03 import _bool_eval
+    from .c03 import _bool_eval
 
-        cmps = [c for c in ast.walk(tt) if isinstance(c, ast.Compare) and norm(c.left) == f"{t}.number_of_shots" and not isinstance(c.ops[0], (ast.Is, ast.IsNot))]
-        pos = any(_bool_eval(ast.parse(norm(c).replace(f"{t}.number_of_shots", "N"), mode="eval").body, {"N": 1}) is True and _bool_eval(ast.parse(norm(c).replace(f"{t}.number_of_shots", "N"), mode="eval").body, {"N": 0}) is False for c in cmps)
-        raises = any(isinstance(x, ast.Raise) for x in inner[0].body)
-        ok_raise = pos and raises
-        zs = [s for s in inner[0].orelse if isinstance(s, (ast.Assign, ast.AnnAssign))]
+    # the value variable: what the appended ExpectationValues carries
+    apps0 = [c for c in ast.walk(l) if isinstance(c, ast.Call) and isinstance(c.func, ast.Attribute) and c.func.attr == "append" and c.args and isinstance(c.args[0], ast.Call) and dotted(c.args[0].func) == "ExpectationValues"]
+    assigns = [s for s in ast.walk(l) if isinstance(s, (ast.Assign, ast.AnnAssign)) and getattr(s, "value", None) is not None and isinstance(s.targets[0] if isinstance(s, ast.Assign) else s.target, ast.Name)]
+    vnames = {norm(s.targets[0] if isinstance(s, ast.Assign) else s.target) for s in assigns}
+    used = {n.id for a in apps0 for n in ast.walk(a.args[0]) if isinstance(n, ast.Name)} & vnames
+    if len(apps0) != 1 or len(used) != 1:
+        ctx.undecided(R3, f.key + ":constant-test", "cannot find the single value variable carried by the appended ExpectationValues", f)
+        return
+    vname = next(iter(used))
+    vdefs = [s for s in assigns if norm(s.targets[0] if isinstance(s, ast.Assign) else s.target) == vname]
+    is_const_txt = f"{t}.operator.is_constant"
+    tests = [n for n in cfg.nodes if n.kind == "test" and n.ast is not None and norm(getattr(n.ast, "test", n.ast)) in (is_const_txt, f"not {is_const_txt}")]
+
+    def side(stmt) -> Optional[str]:
+        node = cfg.containing_node(stmt)
+        if node is None:
+            return None
+        for tn in tests:
+            neg = norm(getattr(tn.ast, "test", tn.ast)).startswith("not ")
+            if cfg.edge_dominates(tn, "true", node):
+                return "nonconstant" if neg else "constant"
+            if cfg.edge_dominates(tn, "false", node):
+                return "constant" if neg else "nonconstant"
+        return None
+
+    def from_ifexp(v):
+        """value = A if is_constant else B"""
+        if isinstance(v, ast.IfExp) and norm(v.test) in (is_const_txt, f"not {is_const_txt}"):
+            neg = norm(v.test).startswith("not ")
+            return (v.orelse, v.body) if neg else (v.body, v.orelse)
+        return None
+
+    const_vals, nonconst_vals, both_vals = [], [], []
+    for sdef in vdefs:
+        pair = from_ifexp(sdef.value)
+        if pair is not None:
+            const_vals.append(pair[0])
+            nonconst_vals.append(pair[1])
+            continue
+        sd = side(sdef)
+        (const_vals if sd == "constant" else nonconst_vals if sd == "nonconstant" else both_vals).append(sdef.value)
+
+    def is_aggregate(v) -> bool:
+        agg_sum = isinstance(v, ast.Call) and dotted(v.func) in ("sum", "np.sum", "math.fsum") and v.args and isinstance(v.args[0], (ast.GeneratorExp, ast.ListComp)) and norm(v.args[0].generators[0].iter) == f"{t}.operator.terms" and norm(v.args[0].elt) == f"{norm(v.args[0].generators[0].target)}.coefficient" and not v.args[0].generators[0].ifs
+        return bool(agg_sum) or norm(v) == f"{t}.operator.constant_term"
+
+    def is_zero(v) -> bool:
         try:
-            ok_zero = len(zs) == 1 and const_value(zs[0].value) == 0
+            return const_value(v) == 0
         except ValueError:
-            ok_zero = False
+            return False
+
+    if both_vals:
+        v = both_vals[0]
+        ctx.violation(R3, f.key + ":zero-shot", f"the value `{short(v)}` is used for constant and non-constant operators alike (no `{is_const_txt}` test governs it): a non-constant zero-shot task must yield exactly 0, but this expression yields the operator's constant part (e.g. 3 for 2*Z0 + 3*I)" if is_aggregate(v) else f"the value `{short(v)}` is used for constant and non-constant operators alike: a constant operator must yield the sum of its terms and a non-constant zero-shot task exactly 0", f)
+        ctx.check(is_aggregate(v), R3, f.key + ":constant", "constant operator -> sum of all its (constant) terms' coefficients", f"a constant operator is valued as {short(v)}", f)
+    else:
+        ok = len(const_vals) >= 1 and all(is_aggregate(v) for v in const_vals)
+        v = const_vals[0] if const_vals else None
+        fixed = [n for n in ast.walk(v) if isinstance(n, ast.Subscript) and isinstance(n.slice, ast.Constant)] if v is not None else []
+        detail = "no value assigned on the constant branch" if v is None else f"a constant operator is valued as {short(v)}" + (": a fixed subscript takes one term only (wrong for several constant terms, IndexError for the empty sum)" if fixed else ": it must aggregate the coefficients of all its terms")
+        ctx.check(ok, R3, f.key + ":constant", "constant operator -> sum of all its (constant) terms' coefficients", detail, f)
+        ok_zero = len(nonconst_vals) >= 1 and all(is_zero(v) for v in nonconst_vals)
+        ctx.check(ok_zero, R3, f.key + ":zero-shot", "non-constant zero-shot task -> literal 0", "a non-constant zero-shot task is not valued as exactly 0" + (f" (it gets {short(nonconst_vals[0])})" if nonconst_vals else ""), f)
+    # a non-constant task that asked for shots is refused
+    ok_raise = False
+    for st in ast.walk(l):
+        if isinstance(st, ast.If) and any(isinstance(x, ast.Raise) for x in st.body):
+            cmps = [c for c in ast.walk(st.test) if isinstance(c, ast.Compare) and norm(c.left) == f"{t}.number_of_shots" and not isinstance(c.ops[0], (ast.Is, ast.IsNot))]
+            pos = any(_bool_eval(ast.parse(norm(c).replace(f"{t}.number_of_shots", "N"), mode="eval").body, {"N": 1}) is True and _bool_eval(ast.parse(norm(c).replace(f"{t}.number_of_shots", "N"), mode="eval").body, {"N": 0}) is False for c in cmps)
+            node = cfg.containing_node(st.body[0]) if st.body else None
+            on_nonconst = (node is not None and any(cfg.edge_dominates(tn, "false" if not norm(getattr(tn.ast, "test", tn.ast)).startswith("not ") else "true", node) for tn in tests)) or f"not {is_const_txt}" in norm(st.test)
+            if pos and on_nonconst:
+                ok_raise = True
     ctx.check(ok_raise, R3, f.key + ":misclassified", "a non-constant task that asked for shots raises", "a non-constant task with a positive shot count is not refused here", f)
-    ctx.check(ok_zero, R3, f.key + ":zero-shot", "non-constant zero-shot task -> literal 0", "a non-constant zero-shot task is not valued as exactly 0", f)
+    const_assign = vdefs
     apps = [c for c in ast.walk(l) if isinstance(c, ast.Call) and isinstance(c.func, ast.Attribute) and c.func.attr == "append"]
     ok = len(apps) == 1 and apps[0] in [x for s in l.body if not isinstance(s, ast.If) for x in ast.walk(s)] and isinstance(apps[0].args[0], ast.Call) and dotted(apps[0].args[0].func) == "ExpectationValues"
-    vname = norm(const_assign[0].targets[0] if isinstance(const_assign[0], ast.Assign) else const_assign[0].target) if const_assign else None
     ok = ok and vname is not None and vname in norm(apps[0].args[0].args[0] if apps[0].args[0].args else apps[0].args[0])
     rets = returned_exprs(f.node)
     ok = ok and len(rets) == 1 and norm(rets[0]) == norm(apps[0].func.value)
